@@ -2,7 +2,8 @@
 
 
 def gen_body(r, prefix, allow_singleton=True):
-    """items: ('private'|'protected'|'public',) | ('def', name, shape) | ('defself', name, shape) | ('singleton', [sitems])"""
+    """items: ('private'|'protected'|'public',) | ('def', name, shape) | ('defself', name, shape) | ('singleton', [sitems])
+    | ('privdef', name, shape)  — `private def name`  | ('privsym', [names]) — `private :a, :b` (names defined earlier)"""
     items = []
     n = [0]
 
@@ -17,8 +18,14 @@ def gen_body(r, prefix, allow_singleton=True):
         x = r.random()
         if x < 0.25:
             items.append((r.choice(["private", "private", "protected", "public"]),))
-        elif x < 0.65:
+        elif x < 0.55:
             items.append(("def", name("i"), shape()))
+        elif x < 0.62:
+            items.append(("privdef", name("p"), r.choice(["plain", "args", "multiline", "obj"])))
+        elif x < 0.67:
+            earlier = [i[1] for i in items if i[0] == "def"]
+            if earlier:
+                items.append(("privsym", r.sample(earlier, r.randint(1, min(2, len(earlier))))))
         elif x < 0.8:
             items.append(("defself", name("s"), shape()))
         elif allow_singleton:
@@ -26,6 +33,8 @@ def gen_body(r, prefix, allow_singleton=True):
             for _ in range(r.randint(1, 4)):
                 if r.random() < 0.3:
                     body.append((r.choice(["private", "private", "protected", "public"]),))
+                elif r.random() < 0.15:
+                    body.append(("privdef", name("q"), r.choice(["plain", "args"])))
                 else:
                     body.append(("def", name("t"), r.choice(["plain", "args", "endless"])))
             items.append(("singleton", body))
@@ -34,7 +43,7 @@ def gen_body(r, prefix, allow_singleton=True):
     return items
 
 
-def render_def(lines, indent, name, shape, is_self):
+def render_def(lines, indent, name, shape, is_self, prefix=""):
     pad = "  " * indent
     full = ("self." if is_self else "") + name
     row = len(lines) + 1
@@ -56,6 +65,8 @@ def render_def(lines, indent, name, shape, is_self):
     else:
         lines += [pad + "def %s(a," % full, pad + "    b)", pad + "  a", pad + "end"]
         arity = 2
+    if prefix:
+        lines[row - 1] = pad + prefix + lines[row - 1][len(pad):]
     return row, arity
 
 
@@ -78,6 +89,14 @@ def render(kind, cname, items, wrap=None):
         elif it[0] == "defself":
             row, ar = render_def(lines, 1, it[1], it[2], True)
             defs.append({"name": it[1], "row": row, "class_method": True, "vis": "public", "arity": ar})
+        elif it[0] == "privdef":
+            row, ar = render_def(lines, 1, it[1], it[2], False, prefix="private ")
+            defs.append({"name": it[1], "row": row, "class_method": False, "vis": "private", "arity": ar})
+        elif it[0] == "privsym":
+            lines.append("  private " + ", ".join(":" + n for n in it[1]))      # the -i tag is the one at the definition
+            for d in defs:
+                if d["name"] in it[1] and not d["class_method"]:
+                    d["call_vis"] = "private"
         else:
             lines.append("  class << self")
             svis = "public"
@@ -85,6 +104,9 @@ def render(kind, cname, items, wrap=None):
                 if s[0] == "def":
                     row, ar = render_def(lines, 2, s[1], s[2], False)
                     defs.append({"name": s[1], "row": row, "class_method": True, "vis": svis, "arity": ar})
+                elif s[0] == "privdef":
+                    row, ar = render_def(lines, 2, s[1], s[2], False, prefix="private ")
+                    defs.append({"name": s[1], "row": row, "class_method": True, "vis": "private", "arity": ar})
                 else:
                     lines.append("    " + s[0])
                     svis = s[0]
@@ -108,8 +130,12 @@ def coq_items(items):
             out.append('(IDef "%s")' % it[1])
         elif it[0] == "defself":
             out.append('(IDefSelf "%s")' % it[1])
+        elif it[0] == "privdef":
+            out.append('(IPrivateDef "%s")' % it[1])
+        elif it[0] == "privsym":
+            out.append('(IPrivateSym [%s])' % "; ".join('"%s"' % n for n in it[1]))
         else:
             body = ["SPrivate" if s[0] == "private" else "SProtected" if s[0] == "protected" else "SPublic" if s[0] == "public"
-                    else '(SDef "%s")' % s[1] for s in it[1]]
+                    else '(SPrivateDef "%s")' % s[1] if s[0] == "privdef" else '(SDef "%s")' % s[1] for s in it[1]]
             out.append("(ISingleton [%s])" % "; ".join(body))
     return "[%s]" % "; ".join(out)
